@@ -19,109 +19,172 @@ theorem maxChars_is_1000_bits : Gen.maxChars * 4 = 1000 := by decide
 
 /-- `hex_bits2chars`, evaluated on 0…512, is the arithmetic the model uses. -/
 theorem hex_bits2chars_graph : ∀ n, n ≤ 512 → Gen.hexBits2chars[n]? = some (Fmt.b2c .hex n) := by
-  sorry
+  intro n hn
+  exact graph_of_toList Gen.hexBits2chars (Fmt.b2c .hex) 513 (by decide +kernel) n (by omega)
 
 theorem oct_bits2chars_graph : ∀ n, n ≤ 512 → Gen.octBits2chars[n]? = some (Fmt.b2c .oct n) := by
-  sorry
+  intro n hn
+  exact graph_of_toList Gen.octBits2chars (Fmt.b2c .oct) 513 (by decide +kernel) n (by omega)
 
 theorem bin_bits2chars_graph : ∀ n, n ≤ 512 → Gen.binBits2chars[n]? = some (Fmt.b2c .bin n) := by
-  sorry
+  intro n hn
+  exact graph_of_toList Gen.binBits2chars (Fmt.b2c .bin) 513 (by decide +kernel) n (by omega)
 
 theorem bytes_bits2chars_graph : ∀ n, n ≤ 512 → Gen.bytesBits2chars[n]? = some (n / 8) := by
-  sorry
+  intro n hn
+  exact graph_of_toList Gen.bytesBits2chars (· / 8) 513 (by decide +kernel) n (by omega)
 
 /-- `_bits_per_char` (`24 // bitlength2chars_fn(24)`) is the number of bits one character stands for. -/
 theorem bitsPerChar_eq (f : Fmt) : bitsPerChar f = f.bpc := by
-  sorry
+  cases f <;> decide
 
 /-- A whole number of digits takes `bits / bits-per-character` characters. -/
 theorem b2c_whole (f : Fmt) (n : Nat) (h : n % f.bpc = 0) : f.b2c n * f.bpc = n := by
-  sorry
+  cases f <;> simp only [Fmt.b2c, Fmt.bpc] at * <;> omega
 
 /-- The default group size of every format (re-read from the dict literal in `_process_pp_tokens`)
     is a positive whole number of digits. -/
 theorem defaultGroup_printable (f : Fmt) : 0 < defaultGroup f ∧ defaultGroup f % f.bpc = 0 := by
-  sorry
+  cases f <;> decide
 
 /-! ### digit strings -/
 
 /-- A digit string has one character per `bpc` bits. -/
 theorem digits_length (f : Fmt) (b : Bits) (h : b.length % f.bpc = 0) :
     (digits f b).length * f.bpc = b.length := by
-  sorry
+  cases f <;> simp only [digits, Fmt.bpc] at *
+  · rw [binDigits_length]; omega
+  · rw [octDigits_length]; omega
+  · rw [hexDigits_length]; omega
 
 /-- Digits of a concatenation, when the cut falls between digits. -/
 theorem digits_append (f : Fmt) (a b : Bits) (h : a.length % f.bpc = 0) :
     digits f (a ++ b) = digits f a ++ digits f b := by
-  sorry
+  cases f
+  · exact binDigits_append a b
+  · exact octDigits_append a b h
+  · exact hexDigits_append a b h
 
 /-- Faithfulness of the digit strings: two values with a whole number of digits and the same digits are equal. -/
 theorem digits_injective (f : Fmt) (a b : Bits) (ha : a.length % f.bpc = 0) (hb : b.length % f.bpc = 0)
     (h : digits f a = digits f b) : a = b := by
-  sorry
+  cases f
+  · exact binDigits_inj a b h
+  · exact octDigits_inj a b ha hb h
+  · exact hexDigits_inj a b ha hb h
 
 /-- `get_fn` succeeds exactly on a whole number of digits. -/
 theorem getDigits_ok_iff (f : Fmt) (b : Bits) :
     (∃ d, getDigits f b = .ok d) ↔ b.length % f.bpc = 0 := by
-  sorry
+  unfold getDigits
+  constructor
+  · rintro ⟨d, hd⟩
+    by_contra hne
+    rw [if_pos hne] at hd
+    cases hd
+  · intro h
+    exact ⟨digits f b, if_neg (fun hne => hne h)⟩
 
 /-! ### `str` -/
 
 /-- In msb0 the slices `Bits.__str__` takes are the ones the specification names. -/
 theorem strFormAlg_msb0 (l : Bits) : strFormAlg false l = strForm l := by
-  sorry
+  exact strFormAlgG_msb0 Gen.maxChars l
 
 /-- `Bits(str(s)) == s` whenever `s` is not truncated (at most `4 * MAX_CHARS` = 1000 bits): every length,
     every residue mod 4 (hex form, binary form below 32 bits, mixed `0x…, 0b…` form). -/
 theorem parse_strForm (l : Bits) (h : l.length ≤ 4 * Gen.maxChars) : parseAuto (strForm l) = .ok l := by
-  sorry
+  exact parse_strFormG Gen.maxChars l h
 
 /-- Longer values are cut to the first `4 * MAX_CHARS` bits in hexadecimal and marked with `...`. -/
 theorem strForm_truncated_marks (l : Bits) (h : l.length > 4 * Gen.maxChars) :
     strForm l = pre0x ++ hexDigits (l.take (4 * Gen.maxChars)) ++ dots ∧ endsWithDots (strForm l) = true := by
-  sorry
+  exact ⟨strFormG_truncated Gen.maxChars l h, (strFormG_marks_iff Gen.maxChars l).mpr h⟩
 
 /-- … and what is shown before the mark describes exactly the leading `4 * MAX_CHARS` bits. -/
 theorem strForm_truncated_prefix (l : Bits) (h : l.length > 4 * Gen.maxChars) :
     parseAuto (pre0x ++ hexDigits (l.take (4 * Gen.maxChars))) = .ok (l.take (4 * Gen.maxChars)) := by
-  sorry
+  exact parse_truncated_prefixG Gen.maxChars (by decide) l h
 
 /-- The mark appears only on truncated values. -/
 theorem strForm_marks_iff (l : Bits) : endsWithDots (strForm l) = true ↔ l.length > 4 * Gen.maxChars := by
-  sorry
+  exact strFormG_marks_iff Gen.maxChars l
 
-/-! ### known finding `lsb0-str-mixed`: with `options.lsb0` set `__str__` slices from the wrong end -/
+/-- `options.lsb0` does not change `str`: `__str__` slices in absolute (msb0) positions, which is how
+    `Bits(<string>)` reads the text back under either option.  (Before /repo 55378c7 it used `self[a:b]`, and the
+    mixed and truncated forms were wrong under lsb0 — finding `lsb0-str-mixed`, fixed.) -/
+theorem strFormAlg_eq_strForm (lsb0 : Bool) (l : Bits) : strFormAlg lsb0 l = strForm l := by
+  rw [strFormAlg_eq_G, strForm_eq_G]; exact strFormAlgG_eq _ _ _
 
-/-- Outside the region (no slice taken: empty, pure binary or pure hexadecimal form) lsb0 does not matter. -/
-theorem strFormAlg_lsb0_partial (l : Bits) (h : lsb0StrSlices l = false) : strFormAlg true l = strForm l := by
-  sorry
-
-/-- Inside it the printed form does not describe the value: a 33-bit witness. -/
-theorem strFormAlg_lsb0_witness :
-    ∃ l : Bits, lsb0StrSlices l = true ∧ l.length ≤ 4 * Gen.maxChars ∧ parseAuto (strFormAlg true l) ≠ .ok l := by
-  sorry
+/-- Hence `Bits(str(s)) == s` under lsb0 as well, for every untruncated value. -/
+theorem parse_strFormAlg (lsb0 : Bool) (l : Bits) (h : l.length ≤ 4 * Gen.maxChars) :
+    parseAuto (strFormAlg lsb0 l) = .ok l := by
+  rw [strFormAlg_eq_strForm]; exact parse_strForm l h
 
 /-! ### `repr` -/
 
 theorem reprFormAlg_msb0 (cls : Cls) (l : Bits) (pos : Nat) : reprFormAlg false cls l pos = reprForm cls l pos := by
-  sorry
+  unfold reprFormAlg reprForm
+  rw [strFormAlg_msb0]
+
+/-- … and under lsb0 too: `repr` is the same text whatever the option. -/
+theorem reprFormAlg_eq_reprForm (lsb0 : Bool) (cls : Cls) (l : Bits) (pos : Nat) :
+    reprFormAlg lsb0 cls l pos = reprForm cls l pos := by
+  unfold reprFormAlg reprForm
+  rw [strFormAlg_eq_strForm]
 
 /-- `str(n)` reads back as `n`. -/
 theorem natDec_roundtrip (n : Nat) : parseNat? (natDec n) = some n := by
-  sorry
+  exact parseNat_natDec n
 
 /-- Evaluating `repr(s)` rebuilds the class, the bits and (for the stream classes) the position, whenever `s` is
     not truncated.  `Bits`/`BitArray` have no position (`hc`); a stream position lies in `[0, len]` (`hp`). -/
 theorem repr_roundtrip (cls : Cls) (l : Bits) (pos : Nat) (h : l.length ≤ 4 * Gen.maxChars)
     (hp : pos ≤ l.length) (hc : cls.hasPos = false → pos = 0) :
     parseRepr (reprForm cls l pos) = .ok (cls, l, pos) := by
-  sorry
+  have hnd : endsWithDots (strForm l) = false := by
+    cases hE : endsWithDots (strForm l) with
+    | false => rfl
+    | true => exact absurd ((strForm_marks_iff l).mp hE) (Nat.not_lt.mpr h)
+  unfold reprForm
+  simp only [hnd, Bool.false_eq_true, if_false]
+  exact parseRepr_text cls (strForm l) l pos (quote_not_mem_strFormG Gen.maxChars l) (parse_strForm l h) hp hc
 
 /-- A truncated `repr` carries the `...` mark inside the literal and ends with the true length. -/
 theorem repr_truncated_reports_length (cls : Cls) (l : Bits) (pos : Nat) (h : l.length > 4 * Gen.maxChars) :
     ∃ body, reprForm cls l pos = body ++ lenComment ++ natDec l.length ∧
       ∃ pre post, body = pre ++ dots ++ ['\''] ++ post := by
-  sorry
+  obtain ⟨hs, hE⟩ := strForm_truncated_marks l h
+  refine ⟨Cls.nameStr cls ++ ['(', '\''] ++ strForm l ++ ['\''] ++ (if pos ≠ 0 then posEq ++ natDec pos else []) ++ [')'],
+    ?_, Cls.nameStr cls ++ ['(', '\''] ++ pre0x ++ hexDigits (l.take (4 * Gen.maxChars)),
+    (if pos ≠ 0 then posEq ++ natDec pos else []) ++ [')'], ?_⟩
+  · unfold reprForm
+    simp only [hE, if_true, List.append_assoc]
+  · rw [hs]
+    simp only [List.append_assoc]
+
+/-! ### known finding `array-long-trailing` -/
+
+/-- When more than `4 * MAX_CHARS` trailing bits are left over, `Array.__repr__` embeds the *truncated* repr of the
+    trailing bits, and the `  # length=N` comment of that repr swallows the closing parenthesis: the text ends
+    `…')  # length=N)`, so it is not an expression that evaluates back to the Array.  (With at most
+    `4 * MAX_CHARS` trailing bits the embedded repr is the faithful one of `repr_roundtrip`.) -/
+theorem arrayRepr_long_trailing_commented (k : Kind) (n : Nat) (data : Bits)
+    (h : data.length % n > 4 * Gen.maxChars) :
+    ∃ pre, arrayRepr k n data = pre ++ lenComment ++ natDec (data.length % n) ++ [')'] := by
+  have ht : data.length % n ≠ 0 := by omega
+  have hle : data.length % n ≤ data.length := Nat.mod_le _ _
+  have hlen : (data.drop (data.length - data.length % n)).length = data.length % n := by
+    rw [List.length_drop]; omega
+  obtain ⟨body, hb, _⟩ := repr_truncated_reports_length .bitArray
+    (data.drop (data.length - data.length % n)) 0 (by rw [hlen]; exact h)
+  rw [hlen] at hb
+  unfold arrayRepr
+  simp only [ht, if_false, reprFormAlg_msb0, hb]
+  refine ⟨"Array('".toList ++ (k.name ++ if k = Kind.bool then [] else natDec n) ++ "', ".toList ++
+      (['['] ++ joinSep commaSp (List.map (itemRepr k) (items n data)) ++ [']']) ++
+      (", trailing_bits=".toList ++ body), ?_⟩
+  simp only [List.append_assoc]
 
 /-! ### non-vacuity -/
 
